@@ -24,6 +24,8 @@ RULE = (
     "iff every consecutive step pair is a link, else empty; reversed path accepted iff the path is and spells the reverse "
     "complement; one output record per path in order. Non-trivial = case has a walk and a non-walk path of >=2 steps; "
     "distinct by SHA-1 of the case."
+    " Later additions: walks of 1 500 and 3 001 steps, a link added through the library turning a non-walk "
+    "into a walk."
 )
 ASSUMPTIONS = ["steps naming nodes absent from the graph are outside the quantifier ('over its nodes')"]
 
